@@ -1,10 +1,12 @@
-\* U1 (thorough): grid j/16, |j| <= 96 (binary laws: x k/4, |k| <= 24), W in {24, 53, 96, 160}
+\* U1 (thorough): grid j/16, |j| <= 96 (binary laws: x k/4, |k| <= 16), W in {24, 53, 96, 160}
 SPECIFICATION Spec
 CONSTANTS
   GridN = 96
   GridShift = 4
-  GridK = 24
+  GridK = 16
   KStep = 4
   Ws = {24, 53, 96, 160}
+  Only = {}
+  Sabotage = 0
 INVARIANT LawsOK
 CHECK_DEADLOCK FALSE
